@@ -22,11 +22,9 @@ Open Scope Z_scope.
 
 (* ------------------------------------------------------------------ kernels *)
 
-(* one loop level: which of Z, A, B carry the loop variable *)
-Definition level := (bool * bool * bool)%type.
-Definition lz (l : level) : bool := fst (fst l).
-Definition la (l : level) : bool := snd (fst l).
-Definition lb (l : level) : bool := snd l.
+(* one loop level: which of Z, A, B carry the loop variable; whether A's / B's rank for this
+   variable is declared uncompressed ("U"); the shape of the rank *)
+Record level := { lz : bool; la : bool; lb : bool; ua : bool; ub : bool; lshape : Z }.
 
 Definition elems (t : tree) : fib := match t with Node es => es | Leaf _ => [] end.
 
@@ -46,13 +44,32 @@ Fixpoint and_merge (a : fib) : fib -> list (Z * (tree * tree)) :=
   | _, _ => []
   end.
 
+(* the payload getPayload(c) hands out for an absent coordinate: a default-valued leaf, or an
+   empty fiber owned by the next rank (fiber.py _createDefault(addtorank=False)) *)
+Definition op_default (below : bool) (d : Z) : tree := if below then Node [] else Leaf d.
+
+(* what iterating one operand fiber yields (Fiber.__iter__, iterators.py:16-32):
+   "C": iterOccupancy -> iterRange: the stored elements whose payload is not empty
+        (Payload.isEmpty against the operand's default d, iterators.py:172);
+   "U": iterActiveShape -> iterRangeShape: every coordinate of range(0, shape) with
+        getPayload(c) — the stored payload, empty or not, or the default (iterators.py:214-216) *)
+Definition op_elems (u : bool) (shape d : Z) (below : bool) (t : tree) : fib :=
+  if u then map (fun c => (c, match lookup c (elems t) with
+                              | Some s => s
+                              | None => op_default below d
+                              end)) (iota (Z.to_nat shape))
+  else present d (elems t).
+
 (* what the loop header of a level yields: (coordinate, (a payload, b payload)); an operand that
-   does not carry the variable is passed down unchanged.  iterRange skips empty payloads
-   (iterators.py:172), also inside `&` and `<<` (their operands are iterated with tick=False) *)
-Definition iter_elems (l : level) (a b : tree) : list (Z * (tree * tree)) :=
-  if la l && lb l then and_merge (present 0 (elems a)) (present 0 (elems b))
-  else if la l then map (fun ct => (fst ct, (snd ct, b))) (present 0 (elems a))
-  else map (fun ct => (fst ct, (a, snd ct))) (present 0 (elems b)).
+   does not carry the variable is passed down unchanged.  Inside `&` and `<<` the operands are
+   iterated with tick=False, through the same __iter__ *)
+Definition iter_elems (l : level) (da db : Z) (ba bb : bool) (a b : tree)
+  : list (Z * (tree * tree)) :=
+  let ea := op_elems (ua l) (lshape l) da ba a in
+  let eb := op_elems (ub l) (lshape l) db bb b in
+  if la l && lb l then and_merge ea eb
+  else if la l then map (fun ct => (fst ct, (snd ct, b))) ea
+  else map (fun ct => (fst ct, (a, snd ct))) eb.
 
 (* populate: the existing payload is updated in place; a new one is inserted at the bisect
    position (iterators.py:1171-1194); removal after the body, iterators.py:1207-1228 *)
@@ -98,7 +115,8 @@ Definition leaf_stmt (coll : bool) (z a b : tree) : tree * list mev :=
   | _, _ => (z, [])          (* operands of the wrong depth: excluded by c15_wf *)
   end.
 
-(* one iteration of the loop at rank r: addUse(r) before the body (iterators.py:176-179); with
+(* one iteration of the loop at rank r: addUse(r) before the body (iterators.py:176-179; in
+   iterRangeShape after fix S44); with
    populate the output payload is looked up / created before and maybe removed after the body *)
 Definition step (coll : bool) (r : Z) (l : level) (zbelow : bool)
            (body : tree -> tree -> tree -> tree * list mev)
@@ -119,14 +137,16 @@ Definition step (coll : bool) (r : Z) (l : level) (zbelow : bool)
   else
     let '(z', e) := body (fst st) ta tb in (z', snd st ++ use ++ e).
 
-(* the loop nest.  registerRank(r) when the for statement starts (iterators.py:162-163) *)
-Fixpoint run (coll : bool) (r : Z) (lv : list level) (z a b : tree) {struct lv}
+(* the loop nest.  registerRank(r) when the for statement starts (iterators.py:162-163,
+   211-212); da, db: the leaf defaults of the operand tensors (the output's is 0) *)
+Fixpoint run (coll : bool) (r : Z) (da db : Z) (lv : list level) (z a b : tree) {struct lv}
   : tree * list mev :=
   match lv with
   | [] => leaf_stmt coll z a b
   | l :: lv' =>
-      fold_left (step coll r l (existsb lz lv') (run coll (r + 1) lv'))
-                (iter_elems l a b) (z, evs_if coll [ERegister r])
+      fold_left (step coll r l (existsb lz lv') (run coll (r + 1) da db lv'))
+                (iter_elems l da db (existsb la lv') (existsb lb lv') a b)
+                (z, evs_if coll [ERegister r])
   end.
 
 Definition z_init (lv : list level) : tree := z_default (existsb lz lv).
@@ -228,6 +248,7 @@ Definition num_iters (lines : Z) : Z := Z.max 0 (lines - 1).
 Record session := {
   s_lv : list level;
   s_a : tree; s_b : tree;           (* operands, ranks in loop order *)
+  s_da : Z; s_db : Z;               (* leaf defaults of the operand tensors *)
   s_traces : list key;              (* Metrics.trace(rank, type) calls after beginCollect *)
   s_zshape : bool;                  (* the output tensor was created with a shape *)
   s_end : bool                      (* false: aborted, endCollect never called *)
@@ -240,7 +261,7 @@ Definition session_start (m : mstate) (s : session) : mstate :=
 (* (output tensor, state after the kernel, state after endCollect) *)
 Definition run_session (m : mstate) (s : session) : tree * mstate * mstate :=
   let m0 := session_start m s in
-  let '(z, evs) := run (m_coll m0) 0 (s_lv s) (z_init (s_lv s)) (s_a s) (s_b s) in
+  let '(z, evs) := run (m_coll m0) 0 (s_da s) (s_db s) (s_lv s) (z_init (s_lv s)) (s_a s) (s_b s) in
   let m1 := fold_left m_apply evs m0 in
   (z, m1, if s_end s then end_collect m1 else m1).
 
